@@ -571,6 +571,19 @@ def r12_param_dependence(facts):
             if key in R12_EXCEPTIONS:
                 c.ok(inst, where, "exception table: %s" % R12_EXCEPTIONS[key])
                 continue
+            # the same two exceptions by ROLE (the routine may be renamed): the scatter that is the adjoint / inverse of unrolling is the private
+            # routine (array, (depth, rows, cols), (rows, cols), (rows, cols), bool); its image-dimensions triple and its mode flag are the exceptions
+            if not b.get("reachable") and (b.get("inputs") or []) == ["&" + ARRAY, "(usize, usize, usize)", "(usize, usize)", "(usize, usize)", "bool"]:
+                pty = None
+                for p_ in facts.params(b):
+                    if p_.get("pat") and p_["pat"].get("name") == label:
+                        pty = p_.get("ty")
+                if pty == "(usize, usize, usize)":
+                    c.ok(inst, where, "exception table (by role): %s" % R12_EXCEPTIONS[("roll_blocks_with", "image_dimensions")])
+                    continue
+                if pty == "bool":
+                    c.ok(inst, where, "exception table (by role): %s" % R12_EXCEPTIONS[("roll_blocks_with", "accumulate")])
+                    continue
             if not bws:
                 # attached closure comes from elsewhere (forwarder): delegation
                 c.unk(inst, where, "value-relevant parameter `%s` in a constructor whose backward closure is not defined here" % label)
